@@ -11,36 +11,71 @@
 #include <vector>
 
 static long g_copies;     // only touched while holding the baton
+static long g_fault_ctor = 0, g_fault_alloc = 0, g_allocs = 0, g_faults_fired = 0;
 struct E {
     unsigned tag, magic;
     E(unsigned t = 0) : tag(t), magic(0xC0FFEEu) {}
-    E(const E& o) : tag(o.tag), magic(o.magic) { ++g_copies; }
+    E(const E& o) : tag(o.tag), magic(o.magic) { if (g_fault_ctor && g_copies + 1 == g_fault_ctor) { g_fault_ctor = 0; ++g_faults_fired; throw 42; } ++g_copies; }
 };
-struct Op { int kind; size_t arg; size_t start, end; bool claimed; const E* addr; };
+// allocator whose k-th allocation of element storage throws (segment-table allocations are not counted)
+template <class T> struct fault_alloc {
+    using value_type = T;
+    fault_alloc() = default;
+    template <class U> fault_alloc(const fault_alloc<U>&) {}
+    T* allocate(size_t n) {
+        if (sizeof(T) == sizeof(E)) { ++g_allocs; if (g_fault_alloc && g_allocs == g_fault_alloc) { ++g_faults_fired; throw std::bad_alloc(); } }
+        return static_cast<T*>(::operator new(n * sizeof(T)));
+    }
+    void deallocate(T* p, size_t) { ::operator delete(p); }
+    template <class U> bool operator==(const fault_alloc<U>&) const { return true; }
+    template <class U> bool operator!=(const fault_alloc<U>&) const { return false; }
+};
+using vec_t = tbb::concurrent_vector<E, fault_alloc<E>>;
+struct Op { int kind; size_t arg; size_t start, end; bool claimed; const E* addr; int threw; };
 static std::vector<std::vector<Op>> g_progs;
 
 static bool run_once(verif::Schedule& sch, int run_idx, bool print) {
-    g_copies = 0;
+    g_copies = 0; g_allocs = 0; g_faults_fired = 0;
+    g_fault_ctor = getenv("VERIF_FAULT_CTOR") ? atol(getenv("VERIF_FAULT_CTOR")) : 0;
+    g_fault_alloc = getenv("VERIF_FAULT_ALLOC") ? atol(getenv("VERIF_FAULT_ALLOC")) : 0;
+    bool faulty = g_fault_ctor || g_fault_alloc;
     auto progs = g_progs;
     size_t T = progs.size();
-    auto* vp = new tbb::concurrent_vector<E>();
+    auto* vp = new vec_t();
     auto& v = *vp;
     verif::clear_names();
     const void* size_addr = (const void*)&v.my_size;
+    verif::name_addr(&v.my_size, "size"); verif::name_addr(&v.my_first_block, "first_block"); verif::name_addr(&v.my_segment_table, "table_ptr");
+    for (int i = 0; i < 3; ++i) verif::name_addr(&v.my_embedded_table[i], "emb" + std::to_string(i));
     std::vector<std::function<void()>> bodies;
     for (size_t t = 0; t < T; ++t) bodies.push_back([&, t] {
         unsigned k = 0;
         for (auto& c : progs[t]) {
             unsigned tag = (unsigned)(t * 100000 + k + 1); ++k;
-            if (c.kind == 0) { auto it = v.push_back(E(tag)); c.start = it - v.begin(); c.end = c.start + 1; c.claimed = true; }
-            else if (c.kind == 1) { auto it = v.grow_by(c.arg, E(tag)); c.start = it - v.begin(); c.end = c.start + c.arg; c.claimed = c.arg != 0; }
-            else { auto it = v.grow_to_at_least(c.arg, E(tag)); size_t i = it - v.begin(); if (i < c.arg) { c.start = i; c.end = c.arg; c.claimed = true; } }
-            if (c.claimed) c.addr = &v[c.start];
+            try {
+                if (c.kind == 0) { auto it = v.push_back(E(tag)); c.start = it - v.begin(); c.end = c.start + 1; c.claimed = true; }
+                else if (c.kind == 1) { auto it = v.grow_by(c.arg, E(tag)); c.start = it - v.begin(); c.end = c.start + c.arg; c.claimed = c.arg != 0; }
+                else { auto it = v.grow_to_at_least(c.arg, E(tag)); size_t i = it - v.begin(); if (i < c.arg) { c.start = i; c.end = c.arg; c.claimed = true; } }
+                if (c.claimed) c.addr = &v[c.start];
+            } catch (std::bad_alloc&) { c.threw = 1; c.claimed = false; }
+              catch (int) { c.threw = 2; c.claimed = false; }
         }
     });
     verif::Result r = verif::run(bodies, sch);
     std::string err;
     if (r.deadlock) err = "DEADLOCK";
+    else if (faulty && g_faults_fired) {
+        // failure clauses of the property: the vector stays destructible and every later access either works or throws,
+        // without touching unallocated memory (a wild access crashes the process: see verif::report_crashes)
+        size_t okc = 0, thr = 0;
+        for (size_t i = 0; i < v.size(); ++i) { try { volatile unsigned x = v.at(i).magic; (void)x; ++okc; } catch (...) { ++thr; } }
+        // elements of calls that completed normally must still hold their values
+        for (size_t t = 0; t < T; ++t) { unsigned k = 0; for (auto& c : progs[t]) {
+            unsigned tag = (unsigned)(t * 100000 + k + 1); ++k;
+            if (!c.claimed) continue;
+            for (size_t i = c.start; i < c.end && i < v.size(); ++i) { try { if (v.at(i).tag != tag) err = "element of a completed call lost its value after a fault"; } catch (...) { err = "element of a completed call became inaccessible after a fault"; } }
+        } }
+    }
     else {
         // monitors: ranges tile [0,size), constructed once with the requested value, addresses stable
         std::vector<std::pair<size_t, size_t>> rs;
@@ -64,9 +99,11 @@ static bool run_once(verif::Schedule& sch, int run_idx, bool print) {
             printf("e %d %s %llu %llu %d\n", e.tid, verif::kind_name(e.kind), (unsigned long long)e.a, (unsigned long long)e.b, e.ok);
         for (size_t t = 0; t < T; ++t) { unsigned k = 0; for (auto& c : progs[t]) {
             const char* kn = c.kind == 0 ? "push" : c.kind == 1 ? "by" : "to";
-            if (c.claimed) printf("call %zu %u %s %zu %zu %zu\n", t, k, kn, c.arg, c.start, c.end); else printf("call %zu %u %s %zu - -\n", t, k, kn, c.arg);
+            if (c.claimed) printf("call %zu %u %s %zu %zu %zu\n", t, k, kn, c.arg, c.start, c.end); else printf("call %zu %u %s %zu - -%s\n", t, k, kn, c.arg, c.threw == 1 ? " bad_alloc" : c.threw == 2 ? " ctor_exc" : "");
             ++k; } }
+        if (r.deadlock && getenv("VERIF_TRACE_TAIL")) { size_t n = r.log.size(); for (size_t i = n > 400 ? n - 400 : 0; i < n; ++i) printf("t %s\n", verif::format_event(r.log[i]).c_str()); }
         printf("mon %s\n", ok ? "ok" : ("VIOLATION " + err).c_str());
+        if (faulty) printf("faults_fired %ld\n", g_faults_fired);
         printf("sched"); for (int s : r.schedule) printf(" %d", s); printf("\nend\n");
         fflush(stdout);
     }
@@ -77,6 +114,8 @@ static bool run_once(verif::Schedule& sch, int run_idx, bool print) {
 
 int main(int argc, char** argv) {
     if (argc < 3) return 2;
+    verif::report_crashes();
+    verif::set_idle_round_limit(40);     // the spin loops of this header are memoryless: 40 idle rounds are plenty
     char line[1024];
     while (fgets(line, sizeof line, stdin)) {
         std::istringstream is(line); std::string w; is >> w;
